@@ -271,30 +271,12 @@ func checkC01(w *World) {
 		if len(selCalls) != 1 {
 			w.undecided(P, "R01.9", "implicit child axis", h.Fn.Pos(), fmt.Sprintf("expected one call of the child selector in the Step handler, found %d", len(selCalls)))
 		} else {
-			// NT constants whose equality test leads (true edge) to a block from which the selector call is reachable without passing another test's false edge
-			allInstrs(stepFn, func(in ssa.Instruction) {
-				ifi, ok := in.(*ssa.If)
-				if !ok {
-					return
-				}
-				bo, ok := ifi.Cond.(*ssa.BinOp)
-				if !ok || bo.Op != token.EQL {
-					return
-				}
-				k, ok := constInt(bo.Y)
-				if !ok {
-					return
-				}
-				if n, isNamed := bo.X.Type().(*types.Named); !isNamed || n.Obj().Name() != "NT" {
-					return
-				}
-				tgt := ifi.Block().Succs[0]
-				if tgt == selCalls[0].Block() || tgt.Dominates(selCalls[0].Block()) {
-					if int(k) < len(f.NTNames) {
-						cases[f.NTNames[k]] = true
-					}
-				}
-			})
+			// the nonterminals for which the selector call is reached (case lists, a predicate helper on the
+			// nonterminal, or a set literal)
+			for k := range w.ntSetFor(selCalls[0].Block()) {
+				cases[k] = true
+			}
+			_ = stepFn
 			for _, a := range f.Alts["Step"] {
 				if len(a.Syms) != 1 || !a.Syms[0].IsNT {
 					w.undecided(P, "R01.9", "alternate of Step", 0, "unexpected shape "+a.String())
@@ -472,6 +454,40 @@ func (w *World) checkNodeTypeTests(P string, f *Facts, r *Roles) {
 			arms[s] = ifi
 		}
 	})
+	// table form: the spelling is looked up in a package-level map from spellings to node predicates
+	tableArms := map[string]*ssa.Function{}
+	allInstrs(h.Fn, func(in ssa.Instruction) {
+		lk, ok := in.(*ssa.Lookup)
+		if !ok {
+			return
+		}
+		ld, ok := lk.X.(*ssa.UnOp)
+		if !ok {
+			return
+		}
+		g, ok := ld.X.(*ssa.Global)
+		if !ok {
+			return
+		}
+		entries, ok := w.globalMapLiteral(g)
+		if !ok {
+			return
+		}
+		for _, e := range entries {
+			k, ok := constString(e.Key)
+			if !ok {
+				continue
+			}
+			switch v := stripConv(e.Val).(type) {
+			case *ssa.Function:
+				tableArms[k] = v
+			case *ssa.MakeClosure:
+				if f2, ok := v.Fn.(*ssa.Function); ok {
+					tableArms[k] = f2
+				}
+			}
+		}
+	})
 	var ts []string
 	for t := range gTypes {
 		ts = append(ts, t)
@@ -482,6 +498,19 @@ func (w *World) checkNodeTypeTests(P string, f *Facts, r *Roles) {
 		iface, known := want[t]
 		if !known {
 			w.check(P, "R01.10", "node type "+t, 0, false, "grammar has a node type XPath does not define")
+			continue
+		}
+		if pred := tableArms[t]; ifi == nil && pred != nil {
+			asserted := map[string]bool{}
+			withCallees(pred.Blocks, "exec", h.Fn, func(in ssa.Instruction) {
+				if ta, ok := in.(*ssa.TypeAssert); ok {
+					if n, _ := nodeIface(ta.AssertedType); n != nil {
+						asserted[n.Obj().Name()] = true
+					}
+				}
+			})
+			ok := iface != "" && len(asserted) == 1 && asserted[iface]
+			w.check(P, "R01.10", "node type "+t, pred.Pos(), ok, fmt.Sprintf("table entry filters by %v, XPath requires node.%s", keys(asserted), iface))
 			continue
 		}
 		if ifi == nil {
@@ -547,6 +576,11 @@ func (w *World) checkNodeTypeTests(P string, f *Facts, r *Roles) {
 	for t := range arms {
 		if !gTypes[t] {
 			w.check(P, "R01.10", "node type "+t, arms[t].Pos(), false, "arm for a spelling that is not a NodeType terminal")
+		}
+	}
+	for t, pred := range tableArms {
+		if !gTypes[t] {
+			w.check(P, "R01.10", "node type "+t, pred.Pos(), false, "table entry for a spelling that is not a NodeType terminal")
 		}
 	}
 	// PI target test
